@@ -57,7 +57,7 @@ def run(env, tier, seed, broken=None):
             else: toks[j] = rng.choice(FRAGS)
         texts.append(''.join(toks))
     # deep nesting (kept within what the model's fuel and the OCaml stack handle)
-    for d in (10, 100, 1000, 3000):
+    for d in (10, 100, 1000, 1500):
         texts += ['(' * d + '1' + ')' * d + ';', '[' * d + ']' * d + ';', '{' * d + '}' * d, '-' * d + '1;', '(' * d, 'a' + '[0]' * d + ';',
                   (IF + ' (1) ') * d + '1;', 'a = ' * d + '1;', '!' * d + TRUE + ';']
     mism, gd, acc = diff_front(env, texts)
@@ -100,5 +100,5 @@ def run(env, tier, seed, broken=None):
         if c['id'].startswith('v') and (r['status'] != 65 or r['stdout'] != b''):
             mism.append({'case': c, 'reason': 'a rejected text was (partly) executed or not classified: status %s stdout %r' % (r['status'], r['stdout'][:80])})
     return {'evaluations': len(texts) + len(deep) + len(cases), 'distinct_nontrivial': len(nontriv), 'mismatches': mism, 'accepted': acc,
-            'rule': 'all strings of <= %d pieces over a %d-piece lexical alphabet; token sequences of length 3%s over %d tokens and random ones to 14; prefixes of %d valid programs extended by tokens; mutated multi-line programs; nesting depth to 3000 against the model and 10000 on the implementation alone; invalid UTF-8; rejected texts through the process (nothing runs); non-trivial = distinct (accepted, first diagnostic kinds)' % (2 if tier == 'quick' else 3, len(FRAGS), '' if tier == 'quick' else '-4', len(TOKS), nprog),
+            'rule': 'all strings of <= %d pieces over a %d-piece lexical alphabet; token sequences of length 3%s over %d tokens and random ones to 14; prefixes of %d valid programs extended by tokens; mutated multi-line programs; nesting depth to 1500 against the model and 10000 on the implementation alone; invalid UTF-8; rejected texts through the process (nothing runs); non-trivial = distinct (accepted, first diagnostic kinds)' % (2 if tier == 'quick' else 3, len(FRAGS), '' if tier == 'quick' else '-4', len(TOKS), nprog),
             'samples': [texts[500], texts[-20][:80]], 'unmodelled_skipped': len(deep)}
